@@ -129,16 +129,20 @@ VMC_HARNESS(sch_pool, "C06,C01") {
   vmc::note("ok");
 }
 
-// pool destructor (request_stop + join) racing an accepted item: accepted items still complete exactly once
+// pool destructor (request_stop + join) racing an accepted item: accepted items still complete exactly once.
+// arg0 = 0: the harness waits for the item before it destroys the pool; arg0 = 1: the pool is destroyed right after
+// start() returned (the item has been accepted, the worker may be asleep, waking up, or between its try_pop scan and
+// the blocking pop): the destructor must not return before the item ran.  arg1: number of workers.
 VMC_HARNESS(sch_pool_stop, "C06,C01") {
   Clock k; Item it; inplace_stop_source never;
+  bool at_once = vmcrt::arg(0, 0) != 0; int workers = vmcrt::arg(1, 1);
   {
-    static_thread_pool pool(1);
+    static_thread_pool pool(workers);
     auto op = unifex::connect(schedule(pool.get_scheduler()), ItemRcv{&it, &k, never.get_token()});
     unifex::start(op);
-    vmc::wait_until([&] { return it.count > 0; });
+    if (!at_once) vmc::wait_until([&] { return it.count > 0; });
   }
-  vmc::check(it.count == 1, "C06,C01", "item-lost", "item lost");
+  vmc::check(it.count == 1 && it.how == 'V', "C06,C01", "item-lost", "an item accepted by the pool before it was told to stop did not run");
   vmc::note("ok");
 }
 
